@@ -38,6 +38,7 @@ NEEDS = {
     "X_FaceCtorScalar": ["facector_scalar"], "X_FaceCtorTuple": ["facector_scalar"], "X_Utility": ["utility"],
     "X_Integral": ["integral", "volume"],
     "X_MeshIndex": ["meshindex"],
+    "X_BuilderForms": ["builderforms"],
     "C11_Homogeneous": ["meanflags"], "C11_InputForms": ["meanflags"],
     "C06_SourceForms": ["srcforms"],
     "C04_DiffInterior": ["Mdiff"], "C04_ConvInterior": ["Mconv"], "C04_UpInterior": ["Mup"],
